@@ -4,6 +4,12 @@ import json, sys
 ALL = ["C%02d" % i for i in range(1, 21)]
 # id -> (engine, technique, level text, level note, design ref)
 CHECKS = {
+ "C01": ("SI", "exhaustive small-scope enumeration of ordered route tables x probe paths on the real router plus explicit-state BFS over Handle/Remove/Clean histories; answer-checking oracle (independent pattern parser + Explain)",
+         "Every ordered table of <=2 (quick) / <=3 (thorough) patterns from the dispatch pool, with and without the first-byte index block and under three interceptor sets, probed with every short path over the table alphabet, every instantiation over the value set and their edit-1 neighbours; plus every history of depth <=3/4 with removals. Each answer is checked for pattern liveness, handler identity, literal text, constraints and exact parameter names.",
+         "Bounded table size, path length and value set; paths longer than the bound are covered only through instantiations of the value set.", "4/C01"),
+ "C02": ("I", "exhaustive small-scope enumeration of add-only ordered route tables x probe paths on the real router, compared with an executable reference resolver of the documented procedure (admissible-set oracle)",
+         "Same table and probe space as C01 (add-only, every registration order); the observed route and parameters must be in the set ref.Resolve admits, 404 exactly when that set is empty.",
+         "The reference resolver is the trusted statement of the documented rules (DESIGN 3.6); bounded table size and path length.", "4/C02"),
  "C03": ("S", "explicit-state BFS over Handle/Remove/Clean histories on the real router, dedup on a reflective dump of its private state, reference table + resolver as oracle on every state",
          "Every history over the C03 alphabet up to the depth bound (quick 3, thorough 5), from every reachable deduplicated implementation state, probed with every method on witness and first-byte-variant paths; Routes(), dispatch, frame condition and no-panic are checked in every state against an independent table model.",
          "Bounded depth and finite pattern pool; the state merge relies on the reflective dump covering all router state (field-generic, so new fields are included automatically).", "4/C03"),
